@@ -125,6 +125,15 @@ func collectDecls(fset *token.FileSet, f *ast.File) {
 
 var typedRanges = map[string]bool{}
 
+// typedIndex: position ("file:line:col" of the indexed expression) -> is it a map (for index
+// expressions and arguments of delete that the lenient type check could type)
+var typedIndex = map[string]bool{}
+
+func posKey(fset *token.FileSet, p token.Pos) string {
+	q := fset.Position(p)
+	return fmt.Sprintf("%s:%d:%d", filepath.Base(q.Filename), q.Line, q.Column)
+}
+
 func typeCheck(srcDir string, names []string) {
 	fset := token.NewFileSet()
 	var files []*ast.File
@@ -144,6 +153,12 @@ func typeCheck(srcDir string, names []string) {
 	pkg, _ := conf.Check(files[0].Name.Name, fset, files, info)
 	for _, f := range files {
 		ast.Inspect(f, func(n ast.Node) bool {
+			if ix, ok := n.(*ast.IndexExpr); ok {
+				if tv, ok := info.Types[ix.X]; ok && tv.Type != nil && tv.Type != types.Typ[types.Invalid] {
+					_, isMap := tv.Type.Underlying().(*types.Map)
+					typedIndex[posKey(fset, ix.X.Pos())] = isMap
+				}
+			}
 			if rs, ok := n.(*ast.RangeStmt); ok {
 				if tv, ok := info.Types[rs.X]; ok && tv.Type != nil && tv.Type != types.Typ[types.Invalid] {
 					pos := fset.Position(rs.Pos())
@@ -378,11 +393,145 @@ func (r *rw) block(b *ast.BlockStmt) {
 func (r *rw) stmts(in []ast.Stmt) []ast.Stmt {
 	var out []ast.Stmt
 	for _, s := range in {
+		out = append(out, r.mapAccesses(s)...)
 		if fw := r.fieldWrite(s); fw != nil {
 			out = append(out, fw...)
 			continue
 		}
 		out = append(out, r.stmt(s)...)
+	}
+	return out
+}
+
+// isMapExpr: is e (the base of an index expression, the first argument of delete, the operand
+// of a range) a map?  The type check decides where it could type e; otherwise the name of the
+// variable or field decides (declared as a map somewhere in the package and never as anything else).
+func (r *rw) isMapExpr(e ast.Expr) bool {
+	if m, ok := typedIndex[posKey(r.fset, e.Pos())]; ok {
+		return m
+	}
+	name := ""
+	switch x := e.(type) {
+	case *ast.Ident:
+		name = x.Name
+	case *ast.SelectorExpr:
+		name = x.Sel.Name
+	}
+	_, isMap := mapDecl[name]
+	return isMap && !nonMapDecl[name]
+}
+
+// pureExpr: an identifier or a selector chain rooted in one (evaluating it once more has no effect)
+func pureExpr(e ast.Expr) bool {
+	switch x := e.(type) {
+	case *ast.Ident:
+		return true
+	case *ast.SelectorExpr:
+		return pureExpr(x.X)
+	case *ast.ParenExpr:
+		return pureExpr(x.X)
+	}
+	return false
+}
+
+// mapAccesses returns vsync.MapAccess(m, write) calls for the map reads and writes that the
+// statement s performs itself (not inside nested blocks or function literals): index expressions
+// on maps (on the left of an assignment or in ++/--: write; elsewhere: read), delete(m, k) (write)
+// and range over a map (read).  See shim/vsync/race.go.
+func (r *rw) mapAccesses(s ast.Stmt) []ast.Stmt {
+	var out []ast.Stmt
+	seen := map[string]bool{}
+	add := func(m ast.Expr, write bool) {
+		if !pureExpr(m) {
+			return
+		}
+		k := exprString(r.fset, m) + fmt.Sprint(write)
+		if seen[k] {
+			return
+		}
+		seen[k] = true
+		stats["mapaccess"]++
+		r.needVS = true
+		w := "false"
+		if write {
+			w = "true"
+		}
+		out = append(out, &ast.ExprStmt{X: call(vs("MapAccess"), m, ast.NewIdent(w))})
+	}
+	var scanExpr func(e ast.Node, lhs bool)
+	scanExpr = func(e ast.Node, lhs bool) {
+		if e == nil {
+			return
+		}
+		ast.Inspect(e, func(n ast.Node) bool {
+			switch x := n.(type) {
+			case *ast.FuncLit:
+				return false
+			case *ast.IndexExpr:
+				if r.isMapExpr(x.X) {
+					add(x.X, lhs)
+				}
+				scanExpr(x.X, false)
+				scanExpr(x.Index, false)
+				return false
+			case *ast.CallExpr:
+				if id, ok := x.Fun.(*ast.Ident); ok && id.Name == "delete" && len(x.Args) == 2 && r.isMapExpr(x.Args[0]) {
+					add(x.Args[0], true)
+				}
+			}
+			return true
+		})
+	}
+	switch x := s.(type) {
+	case *ast.AssignStmt:
+		for _, l := range x.Lhs {
+			if ix, ok := l.(*ast.IndexExpr); ok && r.isMapExpr(ix.X) {
+				add(ix.X, true)
+				scanExpr(ix.Index, false)
+			} else {
+				scanExpr(l, false)
+			}
+		}
+		for _, e := range x.Rhs {
+			scanExpr(e, false)
+		}
+	case *ast.IncDecStmt:
+		if ix, ok := x.X.(*ast.IndexExpr); ok && r.isMapExpr(ix.X) {
+			add(ix.X, true)
+		} else {
+			scanExpr(x.X, false)
+		}
+	case *ast.ExprStmt:
+		scanExpr(x.X, false)
+	case *ast.ReturnStmt:
+		for _, e := range x.Results {
+			scanExpr(e, false)
+		}
+	case *ast.IfStmt:
+		if x.Init != nil {
+			out = append(out, r.mapAccesses(x.Init)...)
+		}
+		scanExpr(x.Cond, false)
+	case *ast.SwitchStmt:
+		if x.Init != nil {
+			out = append(out, r.mapAccesses(x.Init)...)
+		}
+		scanExpr(x.Tag, false)
+	case *ast.ForStmt:
+		if x.Init != nil {
+			out = append(out, r.mapAccesses(x.Init)...)
+		}
+		scanExpr(x.Cond, false)
+	case *ast.RangeStmt:
+		if r.isMapExpr(x.X) {
+			add(x.X, false)
+		}
+	case *ast.SendStmt:
+		scanExpr(x.Value, false)
+	case *ast.GoStmt:
+		scanExpr(x.Call, false)
+	case *ast.DeferStmt:
+		scanExpr(x.Call, false)
 	}
 	return out
 }
